@@ -1,3 +1,4 @@
+import BoolFn.Proofs.BddQuant
 import BoolFn.Proofs.QuantET
 /-! # C07 — The Boolean derivative marks where flipping the variables changes the output
 
@@ -77,6 +78,22 @@ theorem order_independent_table (vs vs' : List α) (hp : vs.Perm vs') (hnd : vs.
     (ρ : α → Bool) : (t.derivative vs).den ρ = (t.derivative vs').den ρ := by
   rw [(table_derivative vs hnd t h ρ).2, (table_derivative vs' (hp.nodup hnd) t h ρ).2]
   exact nested_perm _ _ medial_xor hp hnd t ρ
+end
+
+section
+variable [Ord α] [Std.TransOrd α] [Std.LawfulEqOrd α]
+/-! ### decision diagrams (repaired: fold of `var_restrict(v,0) xor var_restrict(v,1)`; a variable
+    that is no input contributes `F xor F`) + prune -/
+theorem bdd_derivative (vs : List α) (hnd : vs.Nodup) (b : Bdd α) (hb : b.WF) :
+    ∃ b', Bdd.derivative vs b = .ok b' ∧ b'.WF ∧ (∀ y, y ∈ b'.inputs ↔ y ∈ b.inputs ∧ y ∉ vs) ∧
+      ∀ ρ, b'.den ρ = nested (· != ·) Bdd.den vs b ρ := by
+  obtain ⟨b', h1, h2, h3, h4⟩ := Bdd.derivative_den vs hnd b hb
+  exact ⟨b', h1, h2, by intro y; rw [h3]; simp, h4⟩
+/-- the three representations of one function have the same derivative: the right-hand side is the
+    same nested expansion of the common denotation -/
+theorem representations_agree (vs : List α) (e : Expr α) (b : Bdd α) (hsame : ∀ ρ, b.den ρ = e.den ρ) (ρ : α → Bool) :
+    nested (· != ·) Bdd.den vs b ρ = nested (· != ·) Expr.den vs e ρ :=
+  Bdd.nested_congr _ _ _ b e hsame vs ρ
 end
 
 /-- the pre-repair definition `F[all=0] xor F[all=1]` is wrong: for the empty set it yields the
